@@ -60,7 +60,7 @@ theorem evaluate_unchanged_periodic_curve {o : Obj K} {b1 : Basis K} (hb : o.bas
     (hv1 : b1.Valid) (k : ℕ) (hk : b1.periodic = (k : Int))
     (hguard : b1.order + k ≤ b1.numFunctions) {nc : ℕ}
     (hs : o.cps.shape = [b1.numFunctions, nc]) (hnc : o.rational = true → 1 ≤ nc)
-    (xs : List K) (hxs : ∀ x ∈ xs, wrapVal b1 x ≠ b1.stop) {tol : K} (htol : 0 < tol)
+    (xs : List K) {tol : K} (htol : 0 < tol)
     {us : List K} (hus : ∀ u ∈ us, b1.Admissible tol u) :
     ∃ o', o.insertKnots xs 0 = .ok o' ∧ (o'.basis 0).Valid ∧
       (o'.basis 0).numFunctions = b1.numFunctions + xs.length ∧
@@ -68,16 +68,17 @@ theorem evaluate_unchanged_periodic_curve {o : Obj K} {b1 : Basis K} (hb : o.bas
         o'.evaluate tol [us] true = o.evaluate tol [us] true) := by
   have hb0 : o.basis 0 = b1 := by simp [Obj.basis, hb]
   obtain ⟨o', C, h1, h2, _, hrat, hsh, _, _, hfib, hbases⟩ :=
-    insertKnots_fibres_periodic o 0 (by rw [hb]; simp) (by rw [hs]; simp)
+    insertKnots_fibres_periodic_any o 0 (by rw [hb]; simp) (by rw [hs]; simp)
       (by rw [hb0]; exact hv1) k (by rw [hb0]; exact hk) (by rw [hb0]; exact hguard)
-      (by rw [hb0, hs]; rfl) xs (by rw [hb0]; exact hxs)
+      (by rw [hb0, hs]; rfl) xs
   rw [hb0] at h2 hsh hfib
   have hb'' : o'.bases = #[o'.basis 0] := by rw [hbases, hb]; rfl
   have hs' : o'.cps.shape = [(o'.basis 0).numFunctions, nc] := by rw [hsh, hs, h2.num_eq]; rfl
   refine ⟨o', h1, h2.valid, h2.num_eq, fun hadm' => ?_⟩
   have hper : 0 ≤ b1.periodic := by rw [hk]; omega
   have hper' : 0 ≤ (o'.basis 0).periodic := by rw [h2.periodic_eq]; exact hper
-  refine (transfer_curve hb hb'' hv1 h2.valid hs hs' hrat hnc htol rfl hus hadm' (fun p _ => ?_)).1
+  refine (transfer_curve hb hb'' hv1 h2.valid hs hs' hrat hnc htol rfl hus hadm' (fun p _ => ?_)
+    (fun h => by omega) (fun h => by omega)).1
   intro a i ha hi
   have hnpos := numFunctions_pos hv1
   set u := us.getD p 0 with hu
